@@ -56,6 +56,20 @@ CLAIMED = {
         'technique': 'Lean 4 proof (ring / linear_combination / Real.cos_add) + differential correspondence of the kernels',
         'design_ref': '§5 C15',
     },
+    'C09': {
+        'text': ('Lean theorems (Finset sums, all n ≥ 1, K ≥ 1 incl. K > n, all inputs): the direct, single-FFT and '
+                 'overlap-save kernels equal the specification Σ_j [|i−j|<K] band[|i−j|] x[j]; overlap-save for every FFT '
+                 'size F ≥ 2K−1 (no wrap-around inside a block, the ⌈(n+2h)/step⌉ blocks cover every output); T symmetric; '
+                 'the default FFT size is admissible; whatever the constructor accepts satisfies the hypothesis of the '
+                 'overlap-save theorem.  The executable kernels, the constructor and the dense scatter are compared with '
+                 'the implementation over (n, K, fft_size, batch shapes, dtype, 64-bit mode on/off) × four methods.'),
+        'note': ('Trusted: Lean kernel + Mathlib + standard axioms; A3 (FFT = exact circular convolution; FFT accuracy is '
+                 'runtime, tolerance 1e-3 relative on those channels); the dense scatter is validated differentially '
+                 '(entry-wise against the specification on every run), its index arithmetic is not yet a theorem; batch '
+                 'broadcasting reproduced by the harness.'),
+        'technique': 'Lean 4 proof (Finset.sum reindexing, omega) + differential correspondence of the executable kernels',
+        'design_ref': '§5 C09',
+    },
 }
 
 ALL = [f'C{i:02d}' for i in range(1, 21)]
